@@ -194,7 +194,11 @@ func pinMain(args []string) {
 			var pan any
 			func() {
 				defer func() { pan = recover() }()
-				err = simpleshell.Go(ctx, simpleshell.ConnConfig{C2: srv.srv.URL + simpleshell.IOPath, Fingerprint: fp}, shell)
+				c2 := srv.srv.URL + simpleshell.IOPath
+				if sc, ok := m["scheme"].(string); ok && strings.HasPrefix(c2, "https://") { /* URL schemes are case-insensitive */
+					c2 = sc + c2[len("https"):]
+				}
+				err = simpleshell.Go(ctx, simpleshell.ConnConfig{C2: c2, Fingerprint: fp}, shell)
 			}()
 			cancel()
 			hitNow := srv.hits.Load() - h0
